@@ -262,6 +262,109 @@ Section Verifier.
   Qed.
 End Verifier.
 
+(* ---------- end to end: answers computed from a password, by the specification and by the code model ---------- *)
+Section EndToEnd.
+  Variable H : list Z -> list Z.
+  Variable pbkdf2 : list Z -> list Z -> list Z.
+  Variable modexp : Z -> Z -> Z -> Z.
+  Variable check_dh : Z -> Z -> bool.
+  Notation hash_wf := (Srp.hash_wf H).
+  Notation exp_is_pow := (Srp.exp_is_pow modexp).
+  Notation check_dh_bounds := (Srp.check_dh_bounds check_dh).
+  Notation srp_hash := (srp_hash H pbkdf2 modexp check_dh).
+
+  (* the two SHA-256 no-collision premises for the session secrets s_a, s_b of one login attempt *)
+  Definition no_collision (p g : Z) (salt1 salt2 : list Z) (g_a g_b s_a s_b : Z) : Prop :=
+    let prefix := SrpSpec.XOR (H (num2048 p)) (H (num2048 g)) ++ H salt1 ++ H salt2 ++ num2048 g_a ++ num2048 g_b in
+    (H (num2048 s_a) = H (num2048 s_b) -> num2048 s_a = num2048 s_b) /\
+    (H (prefix ++ H (num2048 s_a)) = H (prefix ++ H (num2048 s_b)) ->
+     prefix ++ H (num2048 s_a) = prefix ++ H (num2048 s_b)).
+
+  (* An answer computed (by the specification) from ANY password, presented to a verifier holding ANY
+     v: accepted iff the client's secret for that password equals the server's secret. *)
+  Theorem answer_accept_iff :
+    forall password salt1 salt2 p g v a b,
+      0 < p <= 2 ^ 2048 ->
+      let B := spec_server_B H p g v b in
+      let g_a := spec_g_a p g a in
+      let u := spec_u H g_a B in
+      let s_a := spec_s_a H p g B a u (spec_x H pbkdf2 password salt1 salt2) in
+      let s_b := spec_s_b p v g_a u b in
+      no_collision p g salt1 salt2 g_a B s_a s_b ->
+      let '(A, M1) := spec_answer H pbkdf2 password salt1 salt2 p g B a in
+      (spec_server_accepts H p g salt1 salt2 v b A M1 <-> s_a = s_b).
+  Proof.
+    intros password salt1 salt2 p g v a b Hp B g_a u s_a s_b [Hc1 Hc2].
+    unfold spec_answer. fold g_a. fold u. fold s_a.
+    assert (forall z, 0 <= z mod p < 2 ^ 2048) as Hb by (intros z; pose proof (Z.mod_pos_bound z p ltac:(lia)); lia).
+    apply verifier_accepts_iff; try assumption; unfold s_a, s_b, g_a, spec_s_a, spec_s_b, spec_g_a; apply Hb.
+  Qed.
+
+  (* the same for the answer computed by the CODE MODEL from [password], any encoding of B *)
+  Theorem code_answer_accept_iff : hash_wf -> exp_is_pow -> check_dh_bounds ->
+    forall password srpB random salt1 salt2 g P v b,
+      bytes_ok P -> bytes_ok srpB -> bytes_ok random -> check_dh g (be_dec P) = true ->
+      let p := be_dec P in
+      let a := be_dec random in
+      be_dec srpB = spec_server_B H p g v b ->
+      let B := spec_server_B H p g v b in
+      let g_a := spec_g_a p g a in
+      let u := spec_u H g_a B in
+      let s_a := spec_s_a H p g B a u (spec_x H pbkdf2 password salt1 salt2) in
+      let s_b := spec_s_b p v g_a u b in
+      no_collision p g salt1 salt2 g_a B s_a s_b ->
+      exists A M1, srp_hash password srpB random salt1 salt2 g P = Ok (A, M1) /\
+                   (spec_server_accepts H p g salt1 salt2 v b A M1 <-> s_a = s_b).
+  Proof.
+    intros Hw He Hc password srpB random salt1 salt2 g P v b HP HB Ha Hchk p a EB B g_a u s_a s_b Hnc.
+    destruct (Hc _ _ Hchk) as [Hg Hp]. fold p in Hp.
+    assert (0 < 2 ^ 2047) as H2047 by (apply Z.pow_pos_nonneg; lia).
+    assert (be_dec srpB < 2 ^ 2048) as HBlt
+      by (rewrite EB; unfold spec_server_B; pose proof (Z.mod_pos_bound (spec_k H p g * v + g ^ b) p ltac:(lia)); lia).
+    rewrite (srp_hash_spec H pbkdf2 modexp check_dh Hw He Hc) by assumption.
+    fold p. fold a. rewrite EB. fold B.
+    pose proof (answer_accept_iff password salt1 salt2 p g v a b ltac:(lia) Hnc) as Hiff.
+    fold B in Hiff. destruct (spec_answer H pbkdf2 password salt1 salt2 p g B a) as [A M1].
+    exists A, M1. split; [reflexivity|exact Hiff].
+  Qed.
+
+  (* C15_verifier_code: the verifier made from the same password accepts the code model's answer *)
+  Theorem code_verifier : hash_wf -> exp_is_pow -> check_dh_bounds ->
+    forall password srpB random salt1 salt2 g P b,
+      bytes_ok P -> bytes_ok srpB -> bytes_ok random -> check_dh g (be_dec P) = true -> 0 <= b ->
+      let p := be_dec P in
+      let v := spec_v p g (spec_x H pbkdf2 password salt1 salt2) in
+      be_dec srpB = spec_server_B H p g v b ->
+      exists A M1, srp_hash password srpB random salt1 salt2 g P = Ok (A, M1) /\
+                   spec_server_accepts H p g salt1 salt2 v b A M1.
+  Proof.
+    intros Hw He Hc password srpB random salt1 salt2 g P b HP HB Ha Hchk Hb p v EB.
+    destruct (Hc _ _ Hchk) as [Hg Hp]. fold p in Hp.
+    assert (0 < 2 ^ 2047) as H2047 by (apply Z.pow_pos_nonneg; lia).
+    assert (be_dec srpB < 2 ^ 2048) as HBlt
+      by (rewrite EB; unfold spec_server_B; pose proof (Z.mod_pos_bound (spec_k H p g * v + g ^ b) p ltac:(lia)); lia).
+    rewrite (srp_hash_spec H pbkdf2 modexp check_dh Hw He Hc) by assumption.
+    fold p. rewrite EB.
+    pose proof (be_dec_range random Ha) as [Ha0 _].
+    pose proof (verifier_accepts_right_password H pbkdf2 Hw password salt1 salt2 p g (be_dec random) b ltac:(lia) Ha0 Hb) as Hacc.
+    cbv zeta in Hacc. fold v in Hacc.
+    destruct (spec_answer H pbkdf2 password salt1 salt2 p g (spec_server_B H p g v b) (be_dec random)) as [A M1].
+    exists A, M1. split; [reflexivity|exact Hacc].
+  Qed.
+
+  (* specification restricted to valid server values *)
+  Theorem srp_hash_spec_valid : hash_wf -> exp_is_pow -> check_dh_bounds ->
+    forall password srpB random salt1 salt2 g P,
+      bytes_ok P -> bytes_ok srpB -> bytes_ok random ->
+      check_dh g (be_dec P) = true -> spec_valid_B (be_dec P) (be_dec srpB) ->
+      srp_hash password srpB random salt1 salt2 g P =
+        Ok (spec_answer H pbkdf2 password salt1 salt2 (be_dec P) g (be_dec srpB) (be_dec random)).
+  Proof.
+    intros Hw He Hc password srpB random salt1 salt2 g P HP HB Ha Hchk [HB0 HBp].
+    destruct (Hc _ _ Hchk) as [_ Hp]. apply srp_hash_spec; try assumption. lia.
+  Qed.
+End EndToEnd.
+
 (* ---------- non-vacuity instance ---------- *)
 Definition nv_H (_ : list Z) : list Z := repeat 1 32.
 Definition nv_pbkdf2 (_ _ : list Z) : list Z := repeat 2 64.
